@@ -56,6 +56,12 @@ def main(argv):
         c.log("TRANSLATOR FAILED:", out[-600:])
     else:
         c.log("translator:", out.strip().split("\n")[0])
+    # 1b. the lexer's regexes / tables (Model/Lexer.v depends on Generated/LexTables.v)
+    rc2, out2 = common.translate("lexregex", "LexTables.v")
+    if rc2 != 0:
+        translator_break = translator_break or {"kind": "translator-failed (lexregex)", "detail": out2[-2000:],
+                                                "note": "zygo/lexer.go no longer has the shape translator/cmd/lexregex understands"}
+        c.log("TRANSLATOR (lexregex) FAILED:", out2[-600:])
     # 2. proofs
     c.proofs()
     c.trusted_base([
@@ -79,7 +85,7 @@ def main(argv):
             mrow = read_model(mout)
             if len(crow) != len(mrow):
                 c.proof_break = c.proof_break or {"kind": "model-runner-output-short", "cases": len(crow), "model": len(mrow)}
-            n = silent = unsup = 0
+            n = silent = unsup = nlex = 0
             stage2 = []          # (id, forms, which)
             byid = {}
             for a, b in zip(crow, mrow):
@@ -90,6 +96,12 @@ def main(argv):
                 model, spec, tag = b[1], b[2], b[3]
                 byid[cid] = a
                 rec = {"text": "{" + unesc(src) + "}", "tokens": toks, "implementation": impl, "model": model, "specification": spec}
+                if toks.startswith("#lex"):
+                    nlex += 1
+                    rec = {"text": unesc(src), "runes": toks[5:], "implementation": impl, "model": model, "specification": spec,
+                           "kind": "the tokens of the real lexer (a fresh Lexer fed rune by rune) differ from the ring-free specification lexer "
+                                   "(sign / exponent decided by the TRUE previous rune): the look-back ring does not return the previous rune at this offset",
+                           "replay": "zygo.VerifLex(<text>) (tag verif), or evaluate the text with EvalString in a fresh interpreter"}
                 if spec == "-":
                     silent += 1
                 if model == "UNSUP":
@@ -122,6 +134,7 @@ def main(argv):
             c.coverage["specification_silent"] = silent
             c.coverage["model_unsupported(for/break/continue)"] = unsup
             c.coverage["known_finding_cases"] = known_rows
+            c.coverage["lexer_texts_vs_ring_model_and_ringfree_spec"] = nlex
             # ---- stage 2
             if stage2:
                 pf = os.path.join(common.BUILD, "C06.prefix")
@@ -158,14 +171,14 @@ def main(argv):
                          "operators": unknown_ops}, no_input=True, tag="ops")
 
     def size(r):
-        return (len(r["tokens"].split()), len(r["text"]))
+        return (len(r.get("tokens", r.get("runes", "")).split()), len(r["text"]))
 
     if prop_fail:
         prop_fail.sort(key=size)
         for f in prop_fail[:3]:
             f.setdefault("kind", "") 
             f["kind"] = f["kind"] or "the statement list of the real Pratt parser differs from the specification (split at the weakest operator of the documented table)"
-            f["replay"] = "evaluate (infixExpand <text>) in a fresh interpreter; or bin/check C06 --replay <this file>"
+            f.setdefault("replay", "evaluate (infixExpand <text>) in a fresh interpreter; or bin/check C06 --replay <this file>")
             f["failing_cases_total"] = len(prop_fail)
             c.violation(f)
     if val_fail:
